@@ -289,5 +289,6 @@ int main(int argc, char** argv) {
     h.run = run_case;
     h.desc = [](const Case& c) { return "stack allocator=" + std::string(c.cfg[5] ? "pooled" : "default") + "\n" + describe_common(c, opname); };
     h.fork_per_case = true;
+    h.persistent_child = true;     // a child serves cases until one ends abnormally (finish_now), then it is replaced
     return vf::pbt_main(argc, argv, h);
 }
